@@ -18,7 +18,7 @@ from . import seqlib as S
 PROPERTY = "C12"
 DRIVER = "TraitsVerif/Driver/Property.lean"
 PROPS_MODULES = ["TraitsVerif.Props.C12"]
-TRANSLATORS = ["propstate"]
+TRANSLATORS = ["propstate", "propsrc"]
 RULE = ("seeded random histories of 1-15 steps over a pool of 3-6 HasTraits objects (value/aux Int, xn/xi/xe Any with comparison_mode "
         "none/identity/equality assigned equal-but-distinct objects 1/1.0/True, (1,2)/(1.0,2.0), 2/2.0, inst Instance, "
         "kids List(Instance), byname Dict(Str, Instance), tags Set(Int)); a class per shape: Property(observe=E) or "
@@ -27,7 +27,9 @@ RULE = ("seeded random histories of 1-15 steps over a pool of 3-6 HasTraits obje
         "another expression), cached or not, 28 expressions (scalar, inst.value, kids.items.value, byname.items, "
         "inst.kids.items.value, tags.items, two-link paths, lists of paths), full-view or lossy-sum getter, getter "
         "returning None / 0 / '' / [] (kind F), getter returning Undefined, getter raising on its k-th call, class-level _p_changed listener, static readers on "
-        "aux / value, dynamically attached on_trait_change + observe listeners and a late reader; steps: scalar set, "
+        "aux / value, class-level _anytrait_changed (shape extra A), dynamically attached listeners of every kind, together or each as "
+        "the only one the object ever had: on_trait_change by name, observe by name, name-less on_trait_change (object-level "
+        "notifier list), and a late reader; steps: scalar set, "
         "Instance reassignment (incl. None, same object, self links), list/dict/set reassignment (incl. equal "
         "content) and in-place item mutation with duplicates (23 container methods), irrelevant changes, reads, "
         "attach/detach, construction with keyword arguments, pickle round trip / clone_traits / deepcopy of the whole "
@@ -38,7 +40,12 @@ RULE = ("seeded random histories of 1-15 steps over a pool of 3-6 HasTraits obje
         "(list literal / extend / slice assignment / dict with None first or in the middle; known finding); "
         "scripted cores (repeated items + same-length slice assignment changing "
         "the multiplicities + pop + change of everything still reachable, item twice / removed once, intermediate object replaced, object under "
-        "two keys, equal container reassigned, object moved) with random padding; every history of length <= 2 "
+        "two keys, equal container reassigned, object moved) with random padding; classes whose untouched kids / byname / inst "
+        "compute a DEFAULT from what the object already references (shape extra D: _kids_default -> [self.inst], "
+        "_byname_default -> {'k0': self.inst}, _inst_default -> kids[0]) over 16 expressions, most with several paths "
+        "reaching the same objects: links set first, a container or inst assigned (or given as constructor keyword) "
+        "before its default was ever read, then reads and changes of every object involved, listeners, copies "
+        "(impl + oracle only: the oracle recomputes on the live objects without materialising defaults); every history of length <= 2 "
         "(quick) / <= 3 (thorough) over 11-14 operations for 6 expressions x 3 shapes on a pool of 3; a fixed corpus. Non-trivial = the case produced a read, a getter call or a "
         "notification; distinct = distinct canonical output line")
 TRUSTED = ["the observe machinery is a parameter of the model (`Env.fires`); the driver instantiates it with the "
@@ -48,7 +55,10 @@ TRUSTED = ["the observe machinery is a parameter of the model (`Env.fires`); the
            "computed by the generator's shadow from builtin list/dict/set semantics + the emission rule of "
            "TraitList/TraitDict/TraitSet (C05-C07); run_impl re-checks them against the real containers",
            "restore order of __getstate__/copyable_trait_names is class definition order (asserted in setup())",
-           "translator propstate.py (ast/regex reader of has_traits.py and ctraits.c)"]
+           "translator propstate.py (ast/regex reader of has_traits.py and ctraits.c)",
+           "translator propsrc.py (Python ast of _create_property_observe_state.handler and cached_property, tokenizer + "
+           "recursive-descent reader of C trait_property_changed) and the semantics Model/PropL.lean gives to the "
+           "translated terms (dict pop/get/set on the cache key, `is Undefined`, has_notifiers, call_notifiers)"]
 ASSUMPTIONS = ["getters satisfy the user contract DependsOnly (a function of what the observed observables hold) and "
                "cannot distinguish ==-equal dependency values (comparison_mode equality suppresses such changes)",
                "changes made with notifications switched off (trait_setq, trait_set(trait_change_notify=False), "
@@ -63,7 +73,12 @@ DISTINCT_BY_OUTPUT = False
 
 EXPRS = ["v", "i.v", "k.v", "B", "i.k.v", "T", "b.v", "K", "I", "i.i.v", "k.k.v", "k.i.v", "i.b.v",
          "v+i.v", "k.v+B", "i.v+i.k.v", "T+k.v+I", "i.i.i.v", "b.b.v", "i.k.i.v",
-         "Xi", "Xn", "Xe", "i.Xi", "k.Xi", "Xi+Xe", "b.Xn", "i.Xe"]
+         "Xi", "Xn", "Xe", "i.Xi", "k.Xi", "Xi+Xe", "b.Xn", "i.Xe",
+         # several paths that reach the same objects
+         "k.v+i.v", "b.v+i.v", "k.i.v+i.i.v", "k.v+b.v", "i.k.v+k.v"]
+# with dynamic defaults returning shared objects (shape extra D)
+DD_EXPRS = ["k.v+i.v", "b.v+i.v", "k.i.v+i.i.v", "k.v+b.v+i.v", "i.k.v+i.i.v", "k.v+I", "K+i.v", "B+i.v", "k.v+i.v+v",
+            "k.v", "b.v", "i.v", "i.k.v", "k.i.v", "i.v+k.v", "i.i.v+k.i.v"]
 # expressions in which a link can be reachable through itself (the F10 input class)
 SELF_EXPRS = ["i.i.v", "k.k.v", "i.i.i.v", "b.b.v", "i.k.i.v", "i.i.v", "k.k.v"]
 LINK_SLOT = {"i": "i", "k": "k", "b": "b"}
@@ -133,9 +148,21 @@ class Shape:
         w = text.split()
         if len(w) == 10:
             w.append("-")
-        self.text = " ".join(w)
-        (self.expr, c, self.variant, sl, ra, rv, rp, self.getter, u, self.fail, self.inherit) = w
+        if len(w) == 11:
+            w.append("-")
+        if w[11] == "-":
+            self.text = " ".join(w[:11])        # (case lines written before `extras` existed stay canonical)
+        else:
+            self.text = " ".join(w)
+        (self.expr, c, self.variant, sl, ra, rv, rp, self.getter, u, self.fail, self.inherit, self.extras) = w
         assert self.inherit in INHERIT and self.getter in "VSF"
+        assert self.extras == "-" or set(self.extras) <= set("AD"), self.extras
+        # A: class-level `_anytrait_changed` listener.  D: dynamic defaults returning shared objects
+        # (`_kids_default` -> [self.inst], `_byname_default` -> {'k0': self.inst}, `_inst_default` -> kids[0]) on
+        # every pool object: the heap of an untouched object depends on when it is first read - outside the
+        # model's vocabulary, implementation + oracle only
+        self.any_static = "A" in self.extras
+        self.dyn_defaults = "D" in self.extras
         self.cached, self.static, self.ra, self.rv, self.rp, self.undef = [x == "1" for x in (c, sl, ra, rv, rp, u)]
         self.legacy = self.variant == "l"
         self.paths = parse_expr(self.expr)
@@ -146,7 +173,7 @@ class Shape:
 
     def class_key(self):
         return (self.expr, self.cached, self.variant, self.static, self.ra, self.rv, self.getter, self.undef, self.fail,
-                self.inherit)
+                self.inherit, self.extras)
 
 
 # ---------------------------------------------------------------------------
@@ -471,7 +498,12 @@ def parse_step(s):
         return ("st", int(w[1]), sorted(set(parse_ids(w[2]))))
     if k in ("mk", "mb", "mt"):
         return (k, int(w[1]), w[2])
-    if k in ("rd", "at", "dt"):
+    if k in ("at", "dt"):
+        # at / dt [kind]: t on_trait_change(h, 'p') | o observe(h, 'p') | n on_trait_change(h) (name-less,
+        # object-level); no kind: t and o together
+        assert len(w) == 1 or w[1] in ("t", "o", "n"), s
+        return (k,) if len(w) == 1 else (k, w[1])
+    if k == "rd":
         return (k,)
     if k == "uh":
         return ("uh", w[1], int(w[2]))
@@ -576,7 +608,7 @@ def rebuild(shape_text, n, steps):
                     self_reach = True
             out.append("K " + "/".join(show_write(w) for w in st[1]) if st[1] else "K")
         else:
-            out.append(k)
+            out.append(" ".join(str(x) for x in st))
         if tgt is not None and h_self_reach(pre, h, shape.paths, tgt[0], tgt[1]):
             self_reach = True
         if not h_tree(h, shape.paths):
@@ -586,7 +618,7 @@ def rebuild(shape_text, n, steps):
     # (the reader attached with `at` is dispatched after the property's observer only when that observer sat on
     #  root.value before; when root.value becomes a dependency later - root reachable from itself - the order on
     #  that trait is registration order, which is C08's hook model, not this one)
-    impl_only = self_reach or (shape.legacy and nontree) or late_reader_first or unhookable
+    impl_only = self_reach or (shape.legacy and nontree) or late_reader_first or unhookable or shape.dyn_defaults
     line = "%s|%d|%s" % (shape.text, n, ";".join(out))
     return ("#" if impl_only else "") + line, {"self_reach": self_reach, "nontree": nontree}
 
@@ -642,7 +674,47 @@ def falsy_mode(case):
     return ("", "", "bool", "len")[zlib.crc32(case.lstrip("#").strip().encode()) % 4]
 
 
-def node_class(fv=""):
+# Dynamic defaults that return objects the holder already references (shape extra `D`): what an untouched trait
+# holds is decided when it is first read, and an assignment to a trait that was never read hands the observers the
+# default, computed on the spot, as the old value (ctraits.c setattr_trait -> default_value_for).
+def _dd_kids(self):
+    i = self.__dict__.get("inst")
+    return [i] if i is not None else []
+
+
+def _dd_byname(self):
+    i = self.__dict__.get("inst")
+    return {"k0": i} if i is not None else {}
+
+
+def _dd_inst(self):
+    k = self.__dict__.get("kids")
+    return k[0] if k else None
+
+
+_DD = {"kids": _dd_kids, "byname": _dd_byname, "inst": _dd_inst}
+_PEEK = [False]
+
+
+def _get(o, name):
+    """read a trait; while the oracle peeks, a dynamic default that was not materialised yet is computed without
+    being stored (the oracle must not change when a default is first read)"""
+    if _PEEK[0] and name in _DD and name not in o.__dict__ and getattr(type(o), "_c12_dd", False):
+        return _DD[name](o)
+    return getattr(o, name)
+
+
+class peeking:
+    def __enter__(self):
+        _PEEK[0] = True
+
+    def __exit__(self, *a):
+        _PEEK[0] = False
+
+
+def node_class(fv="", dd=False):
+    if dd:
+        fv = fv + "D"
     if "node" + fv in _CLASSES:
         return _CLASSES["node" + fv]
     from traits.api import Any, ComparisonMode, Dict, HasTraits, Instance, Int, List, Set, Str
@@ -658,9 +730,24 @@ def node_class(fv=""):
         kids = List(Instance(HasTraits))
         byname = Dict(Str, Instance(HasTraits), copy="deep")
         tags = Set(Int)
-    if fv == "bool":
+    if dd:
+        def mk(name):
+            def default(self):
+                r = _DD[name](self)
+                # (the oracle tells a default computed for a read from one computed as the old value of an assignment)
+                self.__dict__.setdefault("_c12_dflt", []).append((name, r))
+                return r
+            default.__name__ = "_%s_default" % name
+            return default
+
+        class C12Node(C12Node):
+            _c12_dd = True
+            _kids_default = mk("kids")
+            _byname_default = mk("byname")
+            _inst_default = mk("inst")
+    if fv.startswith("bool"):
         C12Node.__bool__ = lambda self: False
-    elif fv == "len":
+    elif fv.startswith("len"):
         C12Node.__len__ = lambda self: 0
     _CLASSES["node" + fv] = _register(C12Node, "C12Node" + fv)
     return _CLASSES["node" + fv]
@@ -682,7 +769,7 @@ def _log(obj):
     d = obj.__dict__
     lg = d.get("_c12")
     if lg is None:
-        lg = d["_c12"] = {"calls": 0, "static": [], "nested": [], "raised": 0}
+        lg = d["_c12"] = {"calls": 0, "static": [], "nested": [], "raised": 0, "anystatic": []}
     return lg
 
 
@@ -702,10 +789,11 @@ def r_targets(o, l):
     if not _is_node(o):
         return []
     if l == "i":
-        return [] if o.inst is None else [o.inst]
+        i = _get(o, "inst")
+        return [] if i is None else [i]
     if l == "k":
-        return list(o.kids)
-    d = o.byname
+        return list(_get(o, "kids"))
+    d = _get(o, "byname")
     return [d[k] for k in sorted(d)]
 
 
@@ -721,11 +809,12 @@ def r_content_str(o, slot):
     if slot == "xe":
         return str(eq_class(o.xe))                 # ... an equality-compared dependency must not be told apart
     if slot == "i":
-        return "N" if o.inst is None else "#%s" % _uid(o.inst)
+        i = _get(o, "inst")
+        return "N" if i is None else "#%s" % _uid(i)
     if slot == "k":
-        return "[" + ",".join(str(_uid(x)) for x in o.kids) + "]"
+        return "[" + ",".join(str(_uid(x)) for x in _get(o, "kids")) + "]"
     if slot == "b":
-        d = o.byname
+        d = _get(o, "byname")
         return "{" + ",".join("%s:%s" % (k[1:], _uid(d[k])) for k in sorted(d)) + "}"
     return "<" + ",".join(str(x) for x in sorted(o.tags)) + ">"
 
@@ -747,11 +836,13 @@ def r_content_sum(o, slot):
     if slot == "xe":
         return eq_class(o.xe)
     if slot == "i":
-        return 0 if o.inst is None else _unum(o.inst)
+        i = _get(o, "inst")
+        return 0 if i is None else _unum(i)
     if slot == "k":
-        return sum(_unum(x) for x in o.kids) + 100 * len(o.kids)
+        kk = _get(o, "kids")
+        return sum(_unum(x) for x in kk) + 100 * len(kk)
     if slot == "b":
-        return sum(int(k[1:]) * 7 + _unum(v) for k, v in o.byname.items())
+        return sum(int(k[1:]) * 7 + _unum(v) for k, v in _get(o, "byname").items())
     return sum(o.tags) + 100 * len(o.tags)
 
 
@@ -772,7 +863,7 @@ def root_class(shape, fv=""):
     if key in _CLASSES:
         return _CLASSES[key]
     from traits.api import Property, Undefined, cached_property
-    Node = node_class(fv)
+    Node = node_class(fv, shape.dyn_defaults)
     paths = shape.paths
     if shape.legacy:
         dep = ",".join(".".join([LEG_LINK[x] for x in p.split(".")[:-1]] + [LEG_LEAF[p.split(".")[-1]]])
@@ -858,6 +949,11 @@ def root_class(shape, fv=""):
         def _p_changed(self, old, new):
             _log(self)["static"].append((old, new))
         body["_p_changed"] = _p_changed
+    if shape.any_static:
+        def _anytrait_changed(self, name, old, new):
+            if name == "p":
+                _log(self)["anystatic"].append((old, new))
+        body["_anytrait_changed"] = _anytrait_changed
     if shape.ra:
         def _aux_changed(self):
             nested_read(self, "ra")
@@ -913,6 +1009,32 @@ def snapshot(pool):
     return h
 
 
+def _pairs(l):
+    return "^".join("%s>%s" % (show_val(a), show_val(b)) for a, b in l)
+
+
+def _fmt(read, calls, nested, static, otc, obs, anyl, anystatic):
+    return "%s c%d x[%s] s[%s] t[%s] o[%s] n[%s] y[%s]" % (
+        read, calls, "^".join(show_val(v) if t == "ok" else "!" + v for t, v, _, _ in nested),
+        _pairs(static), _pairs(otc), _pairs(obs), _pairs(anyl), _pairs(anystatic))
+
+
+def _clear_logs(lg, R):
+    del lg["static"][:]
+    del lg["nested"][:]
+    del lg["anystatic"][:]
+    del R.otc[:]
+    del R.obs[:]
+    del R.anyl[:]
+
+
+def _receivers(shape, R, lg):
+    """(name, notifications received in this step, listener present?) for every kind of listener"""
+    return (("static", list(lg["static"]), shape.static), ("_anytrait_changed", list(lg["anystatic"]), shape.any_static),
+            ("on_trait_change", list(R.otc), "t" in R.kinds), ("observe", list(R.obs), "o" in R.kinds),
+            ("on_trait_change(no name)", list(R.anyl), "n" in R.kinds))
+
+
 def _hit(sig, what, **kw):
     d = {"signature": sig, "what": what}
     d.update(kw)
@@ -922,10 +1044,12 @@ def _hit(sig, what, **kw):
 class Run:
     def __init__(self, shape, n, fv=""):
         self.shape = shape
-        Node = node_class(fv)
+        Node = node_class(fv, shape.dyn_defaults)
         self.cls = root_class(shape, fv)
         self.pool = [self.cls(uid=0)] + [Node(uid=i) for i in range(1, n)]
-        self.attached = False
+        self.kinds = set()       # dynamic listeners attached: t / o / n
+        self.anyl = []
+        self._h_any = lambda obj, name, old, new: self.anyl.append((old, new)) if name == "p" else None
         # the objects assigned for the codes (equal-but-distinct: their identity matters for xi)
         self.lits = list(LITS)
         self.otc = []
@@ -938,25 +1062,47 @@ class Run:
     def root(self):
         return self.pool[0]
 
-    def attach(self):
-        if self.attached:
-            return
-        r = self.root
-        r.on_trait_change(self._h_otc, "p")
-        r.observe(self._h_obs, "p")
-        if self.shape.rp:
-            r.observe(self._h_post, "value")
-        self.attached = True
+    @property
+    def attached(self):
+        """a trait-level dynamic listener on the property (model: St.dyn)"""
+        return bool(self.kinds & {"t", "o"})
 
-    def detach(self):
-        if not self.attached:
-            return
+    def listeners(self):
+        """any listener the property's notifications are delivered to"""
+        return bool(self.shape.static or self.shape.any_static or self.kinds)
+
+    def attach(self, kinds="to"):
         r = self.root
-        r.on_trait_change(self._h_otc, "p", remove=True)
-        r.observe(self._h_obs, "p", remove=True)
-        if self.shape.rp:
+        was = self.attached
+        for k in kinds:
+            if k in self.kinds:
+                continue
+            if k == "t":
+                r.on_trait_change(self._h_otc, "p")
+            elif k == "o":
+                r.observe(self._h_obs, "p")
+            else:
+                r.on_trait_change(self._h_any)
+            self.kinds.add(k)
+        # the late reader comes and goes with the trait-level listeners
+        if self.shape.rp and self.attached and not was:
+            r.observe(self._h_post, "value")
+
+    def detach(self, kinds="to"):
+        r = self.root
+        was = self.attached
+        for k in kinds:
+            if k not in self.kinds:
+                continue
+            if k == "t":
+                r.on_trait_change(self._h_otc, "p", remove=True)
+            elif k == "o":
+                r.observe(self._h_obs, "p", remove=True)
+            else:
+                r.on_trait_change(self._h_any, remove=True)
+            self.kinds.discard(k)
+        if self.shape.rp and was and not self.attached:
             r.observe(self._h_post, "value", remove=True)
-        self.attached = False
 
     def copy(self, kind):
         pool = self.pool
@@ -970,7 +1116,7 @@ class Run:
             for o in pool[1:]:
                 new.append(_copy.deepcopy(o, memo))
         self.pool = new
-        self.attached = False
+        self.kinds = set()
         # the copies hold copies of the literals (pickle: new floats / tuples): a code now stands for the object
         # that is held, so that assigning the same code again is again `the identical object`
         for o in new:
@@ -984,9 +1130,9 @@ class Run:
             kw[{"v": "value", "a": "aux", "xn": "xn", "xi": "xi", "xe": "xe", "i": "inst", "k": "kids", "b": "byname",
                 "t": "tags"}[k]] = self.conv(k, v)
         self.pool[0] = self.cls(uid=0, **kw)
-        self.attached = False
+        self.kinds = set()
 
-    def conv(self, k, v):
+    def conv(self, k, v, holder=None):
         pool = self.pool
         if k == "i":
             return None if v is None else pool[v]
@@ -997,6 +1143,12 @@ class Run:
         if k == "t":
             return set(v)
         if k in ("xn", "xi"):
+            # `the same code again` must be `the identical object` on THIS holder: after a pickle round trip two
+            # holders of the same code hold distinct (equal) objects - floats and tuples are not memoised
+            if holder is not None:
+                cur = getattr(holder, k)
+                if lit_code(cur) == tok_key(v):
+                    return cur
             return self.lits[tok_key(v)]
         if k == "xe":
             return EQ_REPS[tok_key(v)][tok_rep(v) % len(EQ_REPS[tok_key(v)])]
@@ -1020,6 +1172,8 @@ def run_impl(case):
     for f in ("static", "ra", "rv", "rp"):
         if getattr(shape, f):
             tags.add("shape:" + f)
+    if shape.dyn_defaults:
+        return run_impl_defaults(R, shape, steps, tags)
     outs = []
     cached = shape.cached
     # oracle state
@@ -1073,10 +1227,7 @@ def run_impl(case):
             plain = R.cls._c12_plain
             before = show_val(plain(root))
             pre_raised = lg["raised"]
-            del lg["static"][:]
-            del lg["nested"][:]
-            del R.otc[:]
-            del R.obs[:]
+            _clear_logs(lg, R)
             read = "-"
             try:
                 if k == "uh":
@@ -1102,16 +1253,16 @@ def run_impl(case):
                     else:
                         o.byname.update(dict(("k%d" % i, x) for i, x in enumerate(items)))
                 elif k == "sv":
-                    setattr(R.pool[st[1]], SCALAR_NAME[st[2]], R.conv(st[2], st[3]))
+                    setattr(R.pool[st[1]], SCALAR_NAME[st[2]], R.conv(st[2], st[3], R.pool[st[1]]))
                 elif k == "rd":
                     try:
                         read = show_val(root.p)
                     except Exception as e:
                         read = "!" + S.exc_name(e)
                 elif k == "at":
-                    R.attach()
+                    R.attach(*st[1:])
                 elif k == "dt":
-                    R.detach()
+                    R.detach(*st[1:])
                 else:
                     return "bad-case step after uh: %s" % stext, [], ["bad-case"]
             except Exception as e:
@@ -1124,12 +1275,8 @@ def run_impl(case):
                 if k not in ("uh", "uf"):
                     hits.append(_hit(sig("mutation-raises"), "`%s` raised %s" % (stext, type(e).__name__), step=stext))
             after = show_val(plain(root))
-            static, otc, obs, nested = list(lg["static"]), list(R.otc), list(R.obs), list(lg["nested"])
-            outs.append("%s c%d x[%s] s[%s] t[%s] o[%s]" % (
-                read, lg["calls"], "^".join(show_val(v) if t == "ok" else "!" + v for t, v, _, _ in nested),
-                "^".join("%s>%s" % (show_val(a), show_val(b)) for a, b in static),
-                "^".join("%s>%s" % (show_val(a), show_val(b)) for a, b in otc),
-                "^".join("%s>%s" % (show_val(a), show_val(b)) for a, b in obs)))
+            nested = list(lg["nested"])
+            outs.append(_fmt(read, lg["calls"], nested, lg["static"], R.otc, R.obs, R.anyl, lg["anystatic"]))
             entry = root.__dict__.get(CACHE, None)
             if CACHE in root.__dict__ and show_val(entry) != after:
                 hits.append(_hit(sig("stale-cache"), "cache entry differs from recomputation after `%s`" % stext,
@@ -1143,9 +1290,8 @@ def run_impl(case):
                                      else sig("stale-nested-read"), "a handler read the property during the "
                                      "dispatch and got a value computed before the change", seen=show_val(v),
                                      recomputed=show_val(now), step=stext))
-            if before != after and (shape.static or R.attached) and lg["raised"] == pre_raised:
-                for name, got, present in (("static", static, shape.static), ("on_trait_change", otc, R.attached),
-                                           ("observe", obs, R.attached)):
+            if before != after and R.listeners() and lg["raised"] == pre_raised:
+                for name, got, present in _receivers(shape, R, lg):
                     if not present:
                         continue
                     if not got:
@@ -1160,10 +1306,7 @@ def run_impl(case):
         pre_raised = lg["raised"]
         pre_cache = root.__dict__.get(CACHE, None)
         pre_has_cache = CACHE in root.__dict__
-        del lg["static"][:]
-        del lg["nested"][:]
-        del R.otc[:]
-        del R.obs[:]
+        _clear_logs(lg, R)
         read = "-"
         emitted = None
         tgt = None
@@ -1175,7 +1318,7 @@ def run_impl(case):
             tgt = (st[1], k[1])
         try:
             if k == "sv":
-                setattr(R.pool[st[1]], SCALAR_NAME[st[2]], R.conv(st[2], st[3]))
+                setattr(R.pool[st[1]], SCALAR_NAME[st[2]], R.conv(st[2], st[3], R.pool[st[1]]))
             elif k == "si":
                 R.pool[st[1]].inst = R.conv("i", st[2])
             elif k == "sk":
@@ -1215,9 +1358,9 @@ def run_impl(case):
                 read = "!" + S.exc_name(e)
                 tags.add("read-raises")
         elif k == "at":
-            R.attach()
+            R.attach(*st[1:])
         elif k == "dt":
-            R.detach()
+            R.detach(*st[1:])
         elif k == "cp":
             R.copy(st[1])
             fresh = True
@@ -1231,12 +1374,8 @@ def run_impl(case):
         nested = list(lg["nested"])
         static = list(lg["static"])
         otc, obs = list(R.otc), list(R.obs)
-        outs.append("%s c%d x[%s] s[%s] t[%s] o[%s]" % (
-            read, calls,
-            "^".join(show_val(v) if t == "ok" else "!" + v for t, v, _, _ in nested),
-            "^".join("%s>%s" % (show_val(a), show_val(b)) for a, b in static),
-            "^".join("%s>%s" % (show_val(a), show_val(b)) for a, b in otc),
-            "^".join("%s>%s" % (show_val(a), show_val(b)) for a, b in obs)))
+        receivers = _receivers(shape, R, lg)
+        outs.append(_fmt(read, calls, nested, static, otc, obs, R.anyl, lg["anystatic"]))
 
         # ------------------------------------------------------------------ oracle
         # (statement-level; uses only the real objects' observations and plain-data snapshots)
@@ -1268,7 +1407,7 @@ def run_impl(case):
                                  else sig("stale-nested-read"),
                                  "a handler on the changed trait read the property during the dispatch and got a "
                                  "value computed before the change", seen=show_val(v), recomputed=show_val(now), step=stext))
-        if otc != obs:
+        if otc != obs and {"t", "o"} <= R.kinds:
             hits.append(_hit(sig("handlers-disagree"), "on_trait_change and observe handlers on the property "
                              "received different notifications", otc=str(otc), obs=str(obs), step=stext))
         if fresh:
@@ -1284,7 +1423,9 @@ def run_impl(case):
                 return "shadow-mismatch silent change %s" % stext, [], ["shadow-mismatch"]
             relevant = notifying and h_matched(pre, shape.paths, tgt)
             pre_reader = (not shape.legacy) and tgt[0] == 0 and ((shape.rv and tgt[1] == "v") or (shape.ra and tgt[1] == "a"))
-            listeners = shape.static or R.attached
+            listeners = R.listeners()
+            if listeners:
+                tags.add("listeners:" + "+".join(sorted(nm for nm, _, pr in receivers if pr)))
             tags.add("relevant" if relevant else "irrelevant")
             if relevant:
                 tags.add("fires:" + ("cache" if pre_has_cache else "nocache") + (":listeners" if listeners else ""))
@@ -1296,7 +1437,7 @@ def run_impl(case):
                 if h_getter(pre, shape) != ref:
                     return "harness-exception getter not DependsOnly %s" % stext, [], ["harness-exception"]
                 # ... and must not invalidate or notify
-                if (pre_has_cache and CACHE not in root.__dict__) or static or otc or obs:
+                if (pre_has_cache and CACHE not in root.__dict__) or any(got for _, got, _ in receivers):
                     hits.append(_hit(sig("spurious-recompute"),
                                      "a change of an observable the expression does not select dropped the cache "
                                      "entry / notified", step=stext, static=str(static), otc=str(otc)))
@@ -1305,8 +1446,7 @@ def run_impl(case):
             #  when the dropped entry held Undefined)
             undef_entry = pre_has_cache and show_val(pre_cache) == "U"
             if h_getter(pre, shape) != ref and listeners and not raised_now and not (shape.legacy and undef_entry):
-                for name, got, present in (("static", static, shape.static), ("on_trait_change", otc, R.attached),
-                                           ("observe", obs, R.attached)):
+                for name, got, present in receivers:
                     if not present:
                         continue
                     if len(got) != 1:
@@ -1340,6 +1480,126 @@ def run_impl(case):
     return " ; ".join(outs), hits, tags
 
 
+def run_impl_defaults(R, shape, steps, tags):
+    """Shape extra `D` (dynamic defaults returning shared objects; implementation + oracle only).  The heap is not
+    plain data here (what an untouched trait holds depends on when it is first read), so the oracle recomputes the
+    getter's function on the live objects WITHOUT materialising defaults (peeking) and checks: the cache entry and
+    every read equal the recomputation; a change that alters the value while everything the getter reads is
+    materialised is announced to every listener with the recomputed value."""
+    hits, outs = [], []
+    plain = R.cls._c12_plain
+    tags.add("dynamic-defaults")
+    old_default_seen = False
+    mat_ok = False          # everything the getter reads was materialised when the previous step ended
+
+    def peek():
+        with peeking():
+            return show_val(plain(R.root))
+
+    def kind():
+        return "multi-path" if len(shape.paths) > 1 else "nested-path" if shape.paths[0][0] else "own-trait"
+
+    def sig(symptom):
+        # an assignment to a never-read `inst` handed the maintainer a default old value that is hooked through
+        # another path: its hooks are taken away (known finding); every later missed change is that defect
+        if old_default_seen and symptom in ("stale-cache", "stale-read", "not-announced", "announced-wrong-new"):
+            return "stale-after-unset-default-unhooked:shared-with-another-path"
+        return symptom + ":observe:" + kind()
+
+    for stext in steps:
+        st = parse_step(stext)
+        k = st[0]
+        tags.add(k if k not in ("mk", "mb", "mt") else k + ":" + st[2].split(":")[0])
+        root = R.root
+        lg = _log(root)
+        before = peek()
+        pre_raised, pre_calls = lg["raised"], lg["calls"]
+        pre_has_cache = CACHE in root.__dict__
+        _clear_logs(lg, R)
+        for o in R.pool:
+            o.__dict__.pop("_c12_dflt", None)
+        read = "-"
+        fresh = False
+        try:
+            if k == "sv":
+                setattr(R.pool[st[1]], SCALAR_NAME[st[2]], R.conv(st[2], st[3], R.pool[st[1]]))
+            elif k == "si":
+                R.pool[st[1]].inst = R.conv("i", st[2])
+            elif k == "sk":
+                R.pool[st[1]].kids = R.conv("k", st[2])
+            elif k == "sb":
+                R.pool[st[1]].byname = R.conv("b", st[2])
+            elif k == "st":
+                R.pool[st[1]].tags = set(st[2])
+            elif k in ("mk", "mb", "mt"):
+                o = R.pool[st[1]]
+                try:
+                    if k == "mk":
+                        list_op(o.kids, st[2], lambda i: R.pool[i])
+                    elif k == "mb":
+                        dict_op(o.byname, st[2], lambda i: "k%d" % i, lambda i: R.pool[i])
+                    else:
+                        set_op(o.tags, st[2])
+                except (IndexError, ValueError, KeyError):
+                    tags.add("container-op-raises")
+            elif k == "rd":
+                try:
+                    read = show_val(root.p)
+                except Exception as e:
+                    read = "!" + S.exc_name(e)
+            elif k == "at":
+                R.attach(*st[1:])
+            elif k == "dt":
+                R.detach(*st[1:])
+            elif k == "cp":
+                R.copy(st[1])
+                fresh = True
+            elif k == "K":
+                R.construct(st[1])
+                fresh = True
+            else:
+                return "bad-case step with dynamic defaults: %s" % stext, [], ["bad-case"]
+        except Exception as e:
+            read = "!!" + S.exc_name(e)
+            hits.append(_hit(sig("mutation-raises"), "`%s` raised %s (%s)" % (stext, type(e).__name__, str(e)[:80]),
+                             step=stext))
+        root = R.root
+        lg = _log(root)
+        # a default computed as the OLD value of an assignment (not stored): an `inst` default is an object
+        for o in R.pool:
+            for name, r in o.__dict__.pop("_c12_dflt", []):
+                if name == "inst" and r is not None and o.__dict__.get("inst") is not r:
+                    old_default_seen = True
+                    tags.add("unset-default-as-old-value:object")
+                elif name != "inst" and r and o.__dict__.get(name) is not r:
+                    tags.add("unset-default-as-old-value:container")
+        after = peek()
+        nested = list(lg["nested"])
+        receivers = _receivers(shape, R, lg)
+        outs.append(_fmt(read, lg["calls"], nested, lg["static"], R.otc, R.obs, R.anyl, lg["anystatic"]))
+        entry = root.__dict__.get(CACHE, None)
+        if CACHE in root.__dict__ and show_val(entry) != after:
+            hits.append(_hit(sig("stale-cache"), "cache entry differs from recomputation after `%s`" % stext,
+                             cached_value=show_val(entry), recomputed=after, step=stext))
+        if k == "rd" and not read.startswith("!") and read != after:
+            hits.append(_hit(sig("stale-read"), "read differs from recomputation", read=read, recomputed=after,
+                             step=stext))
+        if (not fresh and before != after and mat_ok and R.listeners() and lg["raised"] == pre_raised
+                and k not in ("rd", "at", "dt")):
+            for name, got, present in receivers:
+                if not present:
+                    continue
+                if not got:
+                    hits.append(_hit(sig("not-announced"), "0 notifications to the %s listener for a change that "
+                                     "alters the value" % name, step=stext, recomputed=after))
+                elif show_val(got[-1][1]) != after:
+                    hits.append(_hit(sig("announced-wrong-new"), "notification carries new=%s, recomputed %s"
+                                     % (show_val(got[-1][1]), after), step=stext, listener=name))
+        ran_ok = lg["calls"] > (0 if fresh else pre_calls) and lg["raised"] == (0 if fresh else pre_raised)
+        mat_ok = (CACHE in root.__dict__) or ran_ok
+    return " ; ".join(outs), hits, tags
+
+
 def nontrivial(case, out):
     return (" c0 " not in out.split(" ; ")[-1]) or "rd" in case
 
@@ -1362,9 +1622,29 @@ def random_shape(rng, legacy=None, exprs=None):
     inherit = "-"
     if rng.random() < 0.3:
         inherit = rng.choice(["bu", "b2", "rd"] if cached else ["bc", "rd"])
-    return "%s %d %s %d %d %d %d %s %d %s %s" % (
+    text = "%s %d %s %d %d %d %d %s %d %s %s" % (
         expr, cached, "l" if legacy else "o", rng.random() < 0.3, rng.random() < 0.2, rng.random() < 0.2,
         rng.random() < 0.2, getter, undef, fail, inherit)
+    if rng.random() < 0.12:
+        text += " A"          # class-level _anytrait_changed
+    return text
+
+
+def listener_step(rng, kinds):
+    """attach / detach one kind of dynamic listener (or t and o together); `kinds` = the set attached so far"""
+    r = rng.random()
+    if r < 0.45:
+        on = not ({"t", "o"} <= kinds)
+        kinds |= {"t", "o"} if on else set()
+        if not on:
+            kinds -= {"t", "o"}
+        return ("at",) if on else ("dt",)
+    k = "n" if r < 0.75 else rng.choice("to")
+    if k in kinds:
+        kinds.discard(k)
+        return ("dt", k)
+    kinds.add(k)
+    return ("at", k)
 
 
 ALL_SLOTS = ["v", "a", "i", "k", "b", "t", "xn", "xi", "xe"]
@@ -1404,7 +1684,7 @@ def unhookable_tail(rng, shape, h, n):
         elif r < 0.9:
             tail.append(("sv", rng.choice(reach) if rng.random() < 0.8 else rng.randrange(n), "v", rng.randint(0, 9)))
         else:
-            tail.append(("at",))
+            tail.append(rng.choice([("at",), ("at",), ("at", "n"), ("at", "o")]))
     tail.append(("rd",))
     return tail
 
@@ -1447,6 +1727,69 @@ def failed_hookup_history(rng):
     for x in rng.sample([a, b, a, b], rng.randint(2, 4)):
         steps += [("sv", x, "v", rng.randint(10, 19))] + ([("rd",)] if rng.random() < 0.7 else [])
     steps.append(("rd",))
+    return rebuild(shape_text, n, steps)[0]
+
+
+def defaults_history(rng):
+    """Classes whose untouched kids / byname / inst compute a default from what the object already references
+    (shape extra D): links set first, a container assigned before its default was ever read, then a read and
+    changes of every object involved; random listeners, copies, constructions and padding around that."""
+    expr = rng.choice(DD_EXPRS)
+    cached = rng.random() < 0.85
+    shape_text = "%s %d o %d 0 0 0 %s 0 - - %s" % (expr, cached, rng.random() < 0.3, rng.choice("VVS"),
+                                                    "AD" if rng.random() < 0.1 else "D")
+    n = 5
+    pool = [1, 2, 3, 4]
+    rng.shuffle(pool)
+    a, b, c, d = pool
+    steps = []
+    kinds = set()
+
+    def touch():
+        x = rng.choice([a, a, b, c, d, 0])
+        r = rng.random()
+        if r < 0.7:
+            return ("sv", x, "v", rng.randint(1, 9))
+        if r < 0.85:
+            return ("si", x, rng.choice([a, b, c, d, None]))
+        return rng.choice([("mk", x, "append:%d" % rng.choice(pool)), ("mb", x, "set:%d:%d" % (rng.randint(0, 2),
+                                                                                               rng.choice(pool))),
+                           ("sk", x, [rng.choice(pool) for _ in range(rng.randint(0, 2))])])
+    if rng.random() < 0.25:
+        steps.append(listener_step(rng, kinds))
+    r = rng.random()
+    if r < 0.2:
+        # constructor keywords (assigned in the order given)
+        ws = [("i", a)] + ([("k", [b])] if rng.random() < 0.7 else [("b", {1: b})])
+        if rng.random() < 0.3:
+            ws.reverse()
+        steps.append(("K", ws))
+    else:
+        first = [("si", 0, a)]
+        if rng.random() < 0.5:
+            first.append(("si", a, c))              # a deeper link of the shared object
+        if rng.random() < 0.15:
+            first.append(("rd",))                   # (the defaults are read first: nothing special happens)
+        second = [rng.choice([("sk", 0, [b]), ("sk", 0, [b, a]), ("sb", 0, {1: b}), ("sk", 0, []), ("sb", 0, {}),
+                              ("mk", 0, "append:%d" % b)])]
+        if rng.random() < 0.3:
+            second.append(rng.choice([("sb", 0, {2: b}), ("sk", 0, [d])]))
+        steps += (first + second) if rng.random() < 0.85 else (second + first)
+    if rng.random() < 0.3:
+        steps.append(("si", b, d))
+    steps.append(("rd",))
+    for _ in range(rng.randint(2, 7)):
+        r = rng.random()
+        if r < 0.55:
+            steps.append(touch())
+        elif r < 0.85:
+            steps.append(("rd",))
+        elif r < 0.93:
+            steps.append(listener_step(rng, kinds))
+        else:
+            steps.append(("cp", rng.choice("pcd")))
+            kinds.clear()
+    steps += [("sv", a, "v", rng.randint(10, 19)), ("rd",), ("sv", c, "v", rng.randint(10, 19)), ("rd",)]
     return rebuild(shape_text, n, steps)[0]
 
 
@@ -1624,7 +1967,7 @@ def random_history(rng, legacy=None, maxsteps=15, allow_self=0.06, tree=None, ex
             h.update(saved)
         else:
             steps.append(st)
-    attached = False
+    kinds = set()
     while len(steps) < nsteps:
         r = rng.random()
         if r < 0.60:
@@ -1632,12 +1975,11 @@ def random_history(rng, legacy=None, maxsteps=15, allow_self=0.06, tree=None, ex
         elif r < 0.84:
             st = ("rd",)
         elif r < 0.90:
-            st = ("dt",) if attached else ("at",)
-            attached = not attached
+            st = listener_step(rng, kinds)
         elif r < 0.98 and copies < 2:
             st = ("cp", rng.choice("pcd"))
             copies += 1
-            attached = False
+            kinds.clear()
         else:
             st = ("rd",)
         if shape.legacy:
@@ -1751,15 +2093,14 @@ def motif_history(rng):
         steps += touch(a) + rd + touch(b) + rd
     # random padding: listeners, copies, an extra irrelevant change
     out = []
-    attached = False
+    kinds = set()
     for st in steps:
         r = rng.random()
         if r < 0.06:
-            out.append(("dt",) if attached else ("at",))
-            attached = not attached
+            out.append(listener_step(rng, kinds))
         elif r < 0.10:
             out.append(("cp", rng.choice("pcd")))
-            attached = False
+            kinds.clear()
         elif r < 0.16:
             out.append(("sv", rng.randrange(n), "a", rng.randint(0, 9)))
         out.append(st)
@@ -1771,25 +2112,25 @@ def motif_history(rng):
 
 SMALL_ALPHABETS = {
     "i.v": [("si", 0, None), ("si", 0, 1), ("si", 0, 2), ("si", 1, 2), ("sv", 0, "v", 1), ("sv", 1, "v", 1),
-            ("sv", 2, "v", 1), ("sv", 1, "v", 0), ("rd",), ("at",), ("cp", "p")],
+            ("sv", 2, "v", 1), ("sv", 1, "v", 0), ("rd",), ("at", "n"), ("at",), ("cp", "p")],
     "k.v": [("sk", 0, [1]), ("sk", 0, [1, 1]), ("sk", 0, [2, 1]), ("sk", 0, []), ("mk", 0, "append:1"),
             ("mk", 0, "append:2"), ("mk", 0, "del:0"), ("mk", 0, "remove:1"), ("mk", 0, "set:0:1"),
-            ("sv", 1, "v", 1), ("sv", 2, "v", 1), ("rd",), ("at",), ("cp", "c")],
+            ("sv", 1, "v", 1), ("sv", 2, "v", 1), ("rd",), ("at", "n"), ("at",), ("cp", "c")],
     "i.k.v": [("si", 0, 1), ("si", 0, 2), ("si", 0, None), ("mk", 1, "append:2"), ("mk", 1, "append:1"),
               ("mk", 2, "append:1"), ("mk", 1, "del:0"), ("sk", 1, [2, 2]), ("sv", 1, "v", 1), ("sv", 2, "v", 1),
-              ("rd",), ("cp", "d")],
+              ("rd",), ("at", "n"), ("cp", "d")],
     "b.v": [("sb", 0, {0: 1}), ("sb", 0, {0: 1, 1: 1}), ("sb", 0, {}), ("mb", 0, "set:0:1"), ("mb", 0, "set:1:1"),
             ("mb", 0, "set:0:2"), ("mb", 0, "del:0"), ("mb", 0, "pop:1"), ("sv", 1, "v", 1), ("sv", 2, "v", 1),
-            ("rd",), ("at",)],
+            ("rd",), ("at", "n"), ("at",)],
     "v+i.v": [("sv", 0, "v", 1), ("sv", 0, "v", 0), ("sv", 0, "a", 1), ("si", 0, 1), ("si", 0, None), ("si", 0, 0),
-              ("sv", 1, "v", 1), ("rd",), ("at",), ("dt",), ("cp", "p")],
+              ("sv", 1, "v", 1), ("rd",), ("at", "n"), ("at",), ("dt",), ("cp", "p")],
     "Xi": [("sv", 0, "xi", "1"), ("sv", 0, "xi", "2"), ("sv", 0, "xi", "3"), ("sv", 0, "xi", "4"), ("sv", 0, "xi", "5"),
-           ("sv", 0, "xn", "1"), ("sv", 0, "xe", "1~1"), ("rd",), ("at",), ("cp", "p"), ("cp", "c")],
+           ("sv", 0, "xn", "1"), ("sv", 0, "xe", "1~1"), ("rd",), ("at", "n"), ("at",), ("cp", "p"), ("cp", "c")],
     "Xn+Xe": [("sv", 0, "xn", "1"), ("sv", 0, "xn", "2"), ("sv", 0, "xn", "0"), ("sv", 0, "xe", "1~0"),
               ("sv", 0, "xe", "1~1"), ("sv", 0, "xe", "1~2"), ("sv", 0, "xe", "2~1"), ("sv", 0, "xi", "1"), ("rd",),
               ("at",), ("cp", "d")],
     "T": [("st", 0, [1]), ("st", 0, [1, 2]), ("st", 0, []), ("mt", 0, "add:1"), ("mt", 0, "add:2"),
-          ("mt", 0, "discard:1"), ("mt", 0, "ixor:[1,2]"), ("mt", 0, "clear"), ("mt", 1, "add:1"), ("rd",), ("at",)],
+          ("mt", 0, "discard:1"), ("mt", 0, "ixor:[1,2]"), ("mt", 0, "clear"), ("mt", 1, "add:1"), ("rd",), ("at", "n"), ("at",)],
 }
 SMALL_SHAPES = ["%s 1 o 1 0 0 0 V 0 - -", "%s 1 o 0 0 1 1 F 0 - bu", "%s 0 o 0 0 0 0 S 0 - rd"]
 
@@ -1863,6 +2204,26 @@ def corpus():
         "mb 0 update:{0:1,1:1} {0:1,1:1} 1;mb 0 update:{0:1,1:1} {0:1,1:1} 1;sv 1 v 6;rd",
         # Undefined-returning getter
         "v 1 o 0 0 0 0 S 1 -|2|sv 0 v 3;rd;rd;sv 0 v 4;rd;rd",
+        # every kind of listener as the ONLY one the object ever had: name-less on_trait_change (object-level
+        # notifier list), on_trait_change by name, observe by name, class-level _anytrait_changed
+        "v+k.v 1 o 0 0 0 0 V 0 - -|3|sk 0 [1,2];rd;at n;sv 0 v 2;rd;sv 1 v 10;mk 0 append:2 [1,2,2] 1;dt n;sv 0 v 3;rd",
+        "v 0 o 0 0 0 0 V 0 - -|2|at n;sv 0 v 2;sv 0 v 3;rd",
+        "i.v 1 o 0 0 0 0 S 0 - -|3|at t;si 0 1;sv 1 v 4;dt t;sv 1 v 5;at o;sv 1 v 6;rd;cp p;at n;sv 1 v 7",
+        "k.v 1 o 0 0 0 0 V 0 - - A|3|sk 0 [1];sv 1 v 3;rd;sv 1 v 4;cp c;sv 1 v 5;rd",
+        "v 0 o 0 0 0 0 F 0 - bc A|2|sv 0 v 3;at n;sv 0 v 4;dt n;sv 0 v 5",
+        # dynamic defaults returning shared objects (impl + oracle only): kids assigned before its default
+        # [self.inst] was ever read - the old value handed to the maintainer is an un-hooked list holding an object
+        # that is hooked through the other path
+        "k.v+i.v 1 o 0 0 0 0 V 0 - - D|4|si 0 1;sk 0 [2];rd;sv 1 v 5;rd;sv 2 v 6;rd",
+        "k.i.v+i.i.v 1 o 0 0 0 0 V 0 - - D|5|si 0 1;si 1 3;sk 0 [2];rd;sv 3 v 5;rd;si 1 4;rd;sv 4 v 7;rd",
+        "b.v+i.v 1 o 1 0 0 0 S 0 - - D|4|K i=1/b={1:2};rd;sv 1 v 5;rd",
+        # ... and `inst` assigned before its default kids[0] was read: the old value is an OBJECT hooked through the
+        # kids path, whose hooks the maintainer takes away (known finding)
+        "i.v+k.v 1 o 0 0 0 0 V 0 - - D|4|sk 0 [1];si 0 2;rd;sv 1 v 5;rd",
+        # two holders of one literal code, pickled (floats / tuples are not memoised: each holder gets its own copy),
+        # then the code is assigned again to each: the identical object for that holder, no change
+        "Xi+Xe 1 o 1 0 0 1 S 1 1:TraitError -|4|sv 1 xi 2;sv 0 xi 2;cp p;sv 0 xi 2",
+        "i.Xi+Xi 1 o 1 0 0 0 V 0 - -|3|si 0 1;sv 1 xi 5;sv 0 xi 5;rd;cp p;sv 0 xi 5;sv 1 xi 5;rd;sv 1 xi 4;rd;sv 0 xi 4;rd",
     ]
     return [normalise(c) for c in raw]
 
@@ -1878,6 +2239,8 @@ def generate(rng, tier):
         yield random_history(rng, legacy=False, maxsteps=8, unhookable=1.0)
     for i in range(n // 40):
         yield failed_hookup_history(rng)
+    for i in range(n // 8):
+        yield defaults_history(rng)
     # legacy shape on tree-shaped graphs gets its own stream (separate class shape)
     for i in range(n // 8):
         yield random_history(rng, legacy=True, allow_self=0.0)
